@@ -271,7 +271,9 @@ def main(argv=None):
         agg["excluded"].update(res["excluded"])
         ps = agg["per_sub"].setdefault(sub, {"evaluations": 0, "distinct_nontrivial": 0, "shards": 0, "wall_s": 0.0})
         ps["evaluations"] += res["evaluations"]
-        ps["distinct_nontrivial"] += len(res["nontrivial"])
+        subset = agg.setdefault("per_sub_sets", {}).setdefault(sub, set())
+        subset.update(res["nontrivial"])
+        ps["distinct_nontrivial"] = len(subset)  # union over the shards (a fingerprint met by two shards counts once)
         ps["shards"] += 1
         ps["wall_s"] = round(max(ps["wall_s"], res["wall_s"]), 1)
         if res.get("exhaustive"):
